@@ -450,7 +450,7 @@ func R17() Rule {
 			}
 			c.Check(ok, "R17", chk.fn+"/"+chk.what, at, "checked and answered with a 4xx status", "the "+chk.what+" case is not answered with a 4xx status")
 		}
-		if len(sites) < 12 {
+		if len(sites) < 6 {
 			c.Unknown("R17", "floor/sites", token.NoPos, "only %d request-parsing call sites found in handlers", len(sites))
 		}
 	}}
@@ -588,7 +588,7 @@ func R10() Rule {
 		if nStores == 0 {
 			c.Ok("R10", "no-in-place-mutation-of-store-results", token.NoPos, true, "no map update or field store through an object handed out by Store.Get in handler code")
 		}
-		if nDecode < 3 {
+		if nDecode < 2 {
 			c.Unknown("R10", "floor/decode-sites", token.NoPos, "only %d JSON decodes into storage.Object found in handler code", nDecode)
 		}
 		// the memory store inserts value copies (Copy / Add / UpdateMeta never keep the caller's pointer)
@@ -867,7 +867,7 @@ func R29() Rule {
 				}
 			}
 		}
-		if n < 4 {
+		if n < 3 {
 			c.Unknown("R29", "floor/add-sites", token.NoPos, "only %d Add call sites found", n)
 		}
 		// Register wires both entry points through Drain(Gzip(h))
